@@ -3,6 +3,7 @@ CONSTANTS
   GW = 1
   GI = 2
   RI = 4
+  Routes <- R_none
   SR <- SR_one
   INH = TRUE
   Windows <- W_none
